@@ -135,6 +135,17 @@ register("C02", "other",
          TB + "PV.Src / PV.IC10 are trusted specifications; the lowering options are explored by differential execution, not proved.",
          "Lean 4 corollaries for the textual options + differential execution of real outputs under option vectors against a Lean reference semantics", "DESIGN.md §4 C02")
 
+register("C03", "proof",
+         "Proved in Lean over the operator tables regenerated from utils.py on every run (each lambda translated to a small expression term): tables_are_spec — the regenerated tables equal the specification "
+         "tables (kernel evaluation; a changed lambda or opcode breaks exactly this obligation); fold_binop_agrees_partial — for every exact integer operator (+ - * % ^ & >> << and the six comparisons) and ALL "
+         "integer operands in the property's range (positive modulus, non-negative shift count / shifted value) the value Python computes when folding equals the value of the paired IC10 opcode (including "
+         "icmod_eq_pymod: C-style remainder made non-negative = Python's floor modulus); fold_bool_ops_01 (and/or on truth values), fold_unop_agrees (-x as sub 0 x, not as seqz). The Python-semantics model "
+         "is tied to the real lambdas by correspondence on an integer grid. Division, powers, math functions, HASH, constant lists, named constants, propagation through variables and function arguments are "
+         "decided by the property's own experiment on the real transpiler: constant form (folded literal) vs the same expression with operands loaded from the preloaded stack, both outputs run on the machine "
+         "model, written values compared to 16 significant digits. Known findings F-C03-b (and/or beyond truth values), F-C03-c (~).",
+         TB + "opcode meaning (PV.Fold.icAlu on whole numbers, PV.IC10.FloatSem on binary64) is a trusted specification; transcendental functions use this machine's libm on both sides.",
+         "Lean 4 proof over regenerated operator tables (translator) + fold-vs-runtime experiment on real outputs", "DESIGN.md §4 C03")
+
 ALL = [f"C{i:02d}" for i in range(1, 19)]
 
 
